@@ -22,10 +22,10 @@ def run(rep):
     control.text_deductive(rep)
     control.program_deductive(rep)
     q = rep.tier == 'quick'
-    fw.standin(rep, 's_c11.py', ['run', rep.seed, 450 if q else 4000],
+    fw.standin(rep, 's_c11.py', ['run', rep.seed, 900 if q else 5000],
                'boundary corpus + generated programs: accepted output compiles, loads, defines exactly the clause-head keys as generator functions',
                'numeral spellings, reserved-looking variable names, failing bodies, long conjunctions, deep nesting of control constructs and terms')
-    fw.standin(rep, 'recog.py', ['run', 'accept', rep.seed + 3, 1500 if q else 30000],
+    fw.standin(rep, 'recog.py', ['run', 'accept', rep.seed + 3, 5000 if q else 40000],
                'accepted programs define exactly the clause heads (def set == clause keys of an independent reader)', 'valid programs x corruptions')
     rep.assumptions += [A['A-PYGRAMMAR'], A['A-CPY-LIMITS'], A['A-EXT-EXEC'], A['A-PY-STR'], A['A-EXT-ANTLR']]
     rep.notes.append('lexical sinks proved with SMT strings on the real visitor code: every emitted variable name is an identifier that is not a '
